@@ -73,6 +73,14 @@ StepClauses(p, r) ==
                IsReply(r) => /\ Len(r.obs.chron) = 1
                              /\ r.obs.chron[1].alg = x /\ r.obs.chron[1].t = t /\ r.obs.chron[1].status = (IF out = "empty" THEN "success" ELSE out))
     \cup
+    FailClause("C18.CompletedOnce",
+               \* every completed unit of work is appended to the execution history exactly once with its outcome
+               \* (the path Hand._res -> schedule.complete -> chronicle.append), and nothing else is
+               /\ IsReply(r) => /\ Len(r.obs.chron) = 1
+                                /\ r.obs.chron[1].alg = x /\ r.obs.chron[1].t = t
+                                /\ r.obs.chron[1].status = (IF out = "empty" THEN "success" ELSE out)
+               /\ ~IsReply(r) => Len(r.obs.chron) = 0)
+    \cup
     FailClause("C03.NoSpuriousRecord", ~IsReply(r) => (r.ev = "Reply" \/ Len(r.obs.chron) = 0))
     \cup
     FailClause("C03.HandedOnce",
